@@ -94,17 +94,19 @@ def _cases(ctx, ncases, intercept):
       if not np.allclose(a[4], b[4], rtol=1e-4, atol=1e-5 * (1 + np.abs(a[4]).max())):
         findings.append({"what": f"qfrc_constraint differs between graph_conditional off/on (max |d| {float(np.abs(a[4] - b[4]).max()):.3g}): iterating after convergence changed a world's result",
                          "site": "solver._update_constraint", "trigger_id": "transparent-qfrc", "xml": xml})
-      # a world in a mixed batch (worlds converge at different iterations) vs the same world alone
+      # a world in a mixed batch (worlds converge at different iterations) vs the same world in a batch of the SAME size made of
+      # copies of itself (all worlds stop together, nothing iterates past convergence). Same size on purpose: the sparse Newton
+      # Hessian is accumulated in a number of row groups that depends on nworld, so nworld=1 is a different summation order.
       for w in range(nworld):
         m1 = mjw.put_model(mjm)
-        d1 = mjw.put_data(mjm, mjd, nworld=1)
-        mjw_util.set_rows(d1.qpos, base_qpos[w:w + 1])
-        mjw_util.set_rows(d1.qvel, base_qvel[w:w + 1])
+        d1 = mjw.put_data(mjm, mjd, nworld=nworld)
+        mjw_util.set_rows(d1.qpos, np.repeat(base_qpos[w:w + 1], nworld, axis=0))
+        mjw_util.set_rows(d1.qvel, np.repeat(base_qvel[w:w + 1], nworld, axis=0))
         mjw.forward(m1, d1)
         evals += 1
         qf1, qa1 = d1.qfrc_constraint.numpy()[0], d1.qacc.numpy()[0]
         if int(d1.solver_niter.numpy()[0]) == int(b[0][w]) and not (np.allclose(qf1, b[4][w], rtol=1e-4, atol=1e-5 * (1 + np.abs(qf1).max())) and np.allclose(qa1, b[2][w], rtol=1e-4, atol=1e-5 * (1 + np.abs(qa1).max()))):
-          findings.append({"what": f"world {w} of a {nworld}-world batch (niter {b[0].tolist()}) differs from the same world solved alone: max |d qfrc_constraint| "
+          findings.append({"what": f"world {w} of a {nworld}-world batch (niter {b[0].tolist()}) differs from the same world in a batch of copies of itself: max |d qfrc_constraint| "
                                    f"{float(np.abs(qf1 - b[4][w]).max()):.3g}, |d qacc| {float(np.abs(qa1 - b[2][w]).max()):.3g}", "site": "solver._update_constraint", "trigger_id": "batch-vs-alone",
                            "xml": xml, "world": w})
           break
